@@ -25,16 +25,16 @@ def sh(cmd, **kw):
     return p.returncode, p.stdout
 
 
-def verify(name, tier="quick", run_tests=True, keep=False):
+def verify(name, tier="quick", run_tests=True, keep=False, base="HEAD"):
     d = SEEDED / name
     meta = json.loads((d / "meta.json").read_text())
     pid = meta["property"]
     wt = Path(f"/tmp/swt-{name}-{os.getpid()}")
     res = {"tier": tier, "at": time.strftime("%Y-%m-%dT%H:%M:%SZ", time.gmtime())}
     try:
-        rc, out = sh(f"git -C /repo worktree add -q --detach {wt} HEAD")
+        rc, out = sh(f"git -C /repo worktree add -q --detach {wt} {base}")
         assert rc == 0, out
-        res["repo_head"] = sh("git -C /repo rev-parse --short HEAD")[1].strip()
+        res["repo_head"] = sh(f"git -C /repo rev-parse --short {base}")[1].strip()
         touches_c = any(l.startswith("+++") and l.strip().endswith((".c", ".h")) for l in (d / "patch.diff").read_text().splitlines())
         env = dict(os.environ, PYTHONPATH=f"{wt}/src", MPLBACKEND="Agg")
         # always build the extension modules inside the scratch worktree: without them `import c_hydrodiy_*` would fall
@@ -102,6 +102,12 @@ def main():
     notests = "--no-tests" in a
     if notests:
         a.remove("--no-tests")
+    base = "HEAD"
+    if "--base" in a:
+        # a change written against an older commit of /repo whose patch no longer applies to HEAD
+        i = a.index("--base")
+        base = a[i + 1]
+        del a[i:i + 2]
     if a[0] == "import":
         pid, src, name = a[1], Path(a[2]), a[3]
         d = SEEDED / name
@@ -116,7 +122,7 @@ def main():
             "needs_to_manifest": notes[:1500]}, indent=1) + "\n")
         print("imported", d)
     elif a[0] == "verify":
-        r = verify(a[1], tier, run_tests=not notests)
+        r = verify(a[1], tier, run_tests=not notests, base=base)
         print(json.dumps(r, indent=1))
     elif a[0] == "all":
         rows = []
